@@ -1,7 +1,9 @@
-(* Props/C16Known.v — refutations: for each flag claimed `true` in Actual/SrpActual.v a concrete admissible
+(* Props/C16Known.v — (1) refutations: for each flag claimed `true` in Actual/SrpActual.v a concrete admissible
    file and configuration on which the faithful model differs from the specification, while the model with
-   that single flag switched off agrees with it (closed by vm_compute).  The same inputs are in corpus/C16
-   (as render trees) and are replayed on the implementation on every run. *)
+   that single flag switched off agrees with it (closed by vm_compute);  (2) regressions: the witnesses of the four
+   findings repaired by fix: commits now meet the specification under the faithful model (which reads the repaired
+   rules from the generated layer).  The same inputs are in corpus/C16 (as render trees) and are replayed on the
+   implementation on every run. *)
 From TL Require Import Lib.Base Lib.GenTypes Model.SrpTypes Gen.SrpGen Model.SrpSpec Model.Srp Model.SrpRun Actual.SrpActual.
 
 (* py_hash:
@@ -12,7 +14,7 @@ class Doc:
     '''
     def run(self): return 1
 *)
-Definition w_py_hash : sfile := F Py ".py" [L LCode "class Doc:"; L LCode """""""Summary"; L LBlank ""; L LStrHash "# heading"; L LCode """"""""; L LCode "def run(self): return 1"] [C "Doc" CPlain 1 0 6 [M MPlain "run"]] [] [].
+Definition w_py_hash : sfile := F Py ".py" [L LCode "class Doc:"; L LCode """""""Summary"; L LBlank ""; L LStrHash "# heading"; L LCode """"""""; L LCode "def run(self): return 1"] [C "Doc" CPlain 1 0 0 6 [M MPlain "run"]] [] [].
 Definition c_py_hash : config := [("srp", [("max_loc", VNat 4); ("check_keywords", VBool false)])].
 (* ts_loc:
 class Box {
@@ -21,15 +23,23 @@ class Box {
   run() { return 1; }
 }
 *)
-Definition w_ts_loc : sfile := F Ts ".ts" [L LCode "class Box {"; L LComment "// note"; L LBlank ""; L LCode "run() { return 1; }"; L LCode "}"] [C "Box" CPlain 1 0 5 [M MPlain "run"]] [] [].
+Definition w_ts_loc : sfile := F Ts ".ts" [L LCode "class Box {"; L LComment "// note"; L LBlank ""; L LCode "run() { return 1; }"; L LCode "}"] [C "Box" CPlain 1 0 0 5 [M MPlain "run"]] [] [].
 Definition c_ts_loc : config := [("srp", [("max_loc", VNat 3); ("check_keywords", VBool false)])].
+(* ts_block:
+class Box {
+  /* block */
+  run() { return 1; }
+}
+*)
+Definition w_ts_block : sfile := F Ts ".ts" [L LCode "class Box {"; L LBlockComment "/* block */"; L LCode "run() { return 1; }"; L LCode "}"] [C "Box" CPlain 1 0 0 4 [M MPlain "run"]] [] [].
+Definition c_ts_block : config := [("srp", [("max_loc", VNat 3); ("check_keywords", VBool false)])].
 (* ts_nonpublic:
 class Box {
   private a() { return 1; }
   b() { return 1; }
 }
 *)
-Definition w_ts_nonpublic : sfile := F Ts ".ts" [L LCode "class Box {"; L LCode "private a() { return 1; }"; L LCode "b() { return 1; }"; L LCode "}"] [C "Box" CPlain 1 0 4 [M MPrivateKw "a"; M MPlain "b"]] [] [].
+Definition w_ts_nonpublic : sfile := F Ts ".ts" [L LCode "class Box {"; L LCode "private a() { return 1; }"; L LCode "b() { return 1; }"; L LCode "}"] [C "Box" CPlain 1 0 0 4 [M MPrivateKw "a"; M MPlain "b"]] [] [].
 Definition c_ts_nonpublic : config := [("srp", [("max_methods", VNat 1); ("check_keywords", VBool false)])].
 (* ts_accessor:
 class Box {
@@ -37,7 +47,7 @@ class Box {
   b() { return 1; }
 }
 *)
-Definition w_ts_accessor : sfile := F Ts ".ts" [L LCode "class Box {"; L LCode "get a() { return 1; }"; L LCode "b() { return 1; }"; L LCode "}"] [C "Box" CPlain 1 0 4 [M MProperty "a"; M MPlain "b"]] [] [].
+Definition w_ts_accessor : sfile := F Ts ".ts" [L LCode "class Box {"; L LCode "get a() { return 1; }"; L LCode "b() { return 1; }"; L LCode "}"] [C "Box" CPlain 1 0 0 4 [M MProperty "a"; M MPlain "b"]] [] [].
 Definition c_ts_accessor : config := [("srp", [("max_methods", VNat 1); ("check_keywords", VBool false)])].
 (* ts_abstract:
 abstract class Shape {
@@ -45,7 +55,7 @@ abstract class Shape {
   b() { return 1; }
 }
 *)
-Definition w_ts_abstract : sfile := F Ts ".ts" [L LCode "abstract class Shape {"; L LCode "a() { return 1; }"; L LCode "b() { return 1; }"; L LCode "}"] [C "Shape" CAbstract 1 0 4 [M MPlain "a"; M MPlain "b"]] [] [].
+Definition w_ts_abstract : sfile := F Ts ".ts" [L LCode "abstract class Shape {"; L LCode "a() { return 1; }"; L LCode "b() { return 1; }"; L LCode "}"] [C "Shape" CAbstract 1 0 0 4 [M MPlain "a"; M MPlain "b"]] [] [].
 Definition c_ts_abstract : config := [("srp", [("max_methods", VNat 1); ("check_keywords", VBool false)])].
 (* rs_trait:
 struct Foo;
@@ -97,43 +107,48 @@ Theorem C16_py_hash_in_string_refuted :
   /\ report (with_flag 0 srp_actual) c_py_hash w_py_hash = spec_report c_py_hash w_py_hash.
 Proof. vm_compute. split; [reflexivity | split; [discriminate | reflexivity]]. Qed.
 
-Theorem C16_ts_loc_raw_span_refuted :
-  file_good w_ts_loc = true /\ report srp_actual c_ts_loc w_ts_loc <> spec_report c_ts_loc w_ts_loc
-  /\ report (with_flag 1 srp_actual) c_ts_loc w_ts_loc = spec_report c_ts_loc w_ts_loc.
-Proof. vm_compute. split; [reflexivity | split; [discriminate | reflexivity]]. Qed.
-
 Theorem C16_ts_nonpublic_counted_refuted :
   file_good w_ts_nonpublic = true /\ report srp_actual c_ts_nonpublic w_ts_nonpublic <> spec_report c_ts_nonpublic w_ts_nonpublic
-  /\ report (with_flag 2 srp_actual) c_ts_nonpublic w_ts_nonpublic = spec_report c_ts_nonpublic w_ts_nonpublic.
+  /\ report (with_flag 1 srp_actual) c_ts_nonpublic w_ts_nonpublic = spec_report c_ts_nonpublic w_ts_nonpublic.
 Proof. vm_compute. split; [reflexivity | split; [discriminate | reflexivity]]. Qed.
 
 Theorem C16_ts_accessor_counted_refuted :
   file_good w_ts_accessor = true /\ report srp_actual c_ts_accessor w_ts_accessor <> spec_report c_ts_accessor w_ts_accessor
-  /\ report (with_flag 3 srp_actual) c_ts_accessor w_ts_accessor = spec_report c_ts_accessor w_ts_accessor.
+  /\ report (with_flag 2 srp_actual) c_ts_accessor w_ts_accessor = spec_report c_ts_accessor w_ts_accessor.
 Proof. vm_compute. split; [reflexivity | split; [discriminate | reflexivity]]. Qed.
 
-Theorem C16_ts_abstract_skipped_refuted :
-  file_good w_ts_abstract = true /\ report srp_actual c_ts_abstract w_ts_abstract <> spec_report c_ts_abstract w_ts_abstract
-  /\ report (with_flag 4 srp_actual) c_ts_abstract w_ts_abstract = spec_report c_ts_abstract w_ts_abstract.
-Proof. vm_compute. split; [reflexivity | split; [discriminate | reflexivity]]. Qed.
-
-Theorem C16_rs_trait_first_ident_refuted :
-  file_good w_rs_trait = true /\ report srp_actual c_rs_trait w_rs_trait <> spec_report c_rs_trait w_rs_trait
-  /\ report (with_flag 5 srp_actual) c_rs_trait w_rs_trait = spec_report c_rs_trait w_rs_trait.
-Proof. vm_compute. split; [reflexivity | split; [discriminate | reflexivity]]. Qed.
-
-Theorem C16_rs_generic_impl_lost_refuted :
-  file_good w_rs_generic = true /\ report srp_actual c_rs_generic w_rs_generic <> spec_report c_rs_generic w_rs_generic
-  /\ report (with_flag 6 srp_actual) c_rs_generic w_rs_generic = spec_report c_rs_generic w_rs_generic.
+Theorem C16_ts_block_comment_counted_refuted :
+  file_good w_ts_block = true /\ report srp_actual c_ts_block w_ts_block <> spec_report c_ts_block w_ts_block
+  /\ report (with_flag 3 srp_actual) c_ts_block w_ts_block = spec_report c_ts_block w_ts_block.
 Proof. vm_compute. split; [reflexivity | split; [discriminate | reflexivity]]. Qed.
 
 Theorem C16_rs_name_collision_refuted :
   file_good w_rs_collision = true /\ report srp_actual c_rs_collision w_rs_collision <> spec_report c_rs_collision w_rs_collision
-  /\ report (with_flag 7 srp_actual) c_rs_collision w_rs_collision = spec_report c_rs_collision w_rs_collision.
+  /\ report (with_flag 4 srp_actual) c_rs_collision w_rs_collision = spec_report c_rs_collision w_rs_collision.
 Proof. vm_compute. split; [reflexivity | split; [discriminate | reflexivity]]. Qed.
 
 Theorem C16_rs_block_comment_counted_refuted :
   file_good w_rs_block = true /\ report srp_actual c_rs_block w_rs_block <> spec_report c_rs_block w_rs_block
-  /\ report (with_flag 8 srp_actual) c_rs_block w_rs_block = spec_report c_rs_block w_rs_block.
+  /\ report (with_flag 5 srp_actual) c_rs_block w_rs_block = spec_report c_rs_block w_rs_block.
 Proof. vm_compute. split; [reflexivity | split; [discriminate | reflexivity]]. Qed.
+
+(* fixed by c90fc92: the old witness of q_ts_loc_raw_span now meets the specification *)
+Example C16_ts_loc_raw_span_fixed_regression :
+  file_good w_ts_loc = true /\ report srp_actual c_ts_loc w_ts_loc = spec_report c_ts_loc w_ts_loc /\ spec_report c_ts_loc w_ts_loc = [].
+Proof. vm_compute. split; [reflexivity | split; [reflexivity | reflexivity]]. Qed.
+
+(* fixed by 447c6e4: the old witness of q_ts_abstract_skipped now meets the specification *)
+Example C16_ts_abstract_skipped_fixed_regression :
+  file_good w_ts_abstract = true /\ report srp_actual c_ts_abstract w_ts_abstract = spec_report c_ts_abstract w_ts_abstract /\ spec_report c_ts_abstract w_ts_abstract <> [].
+Proof. vm_compute. split; [reflexivity | split; [reflexivity | discriminate]]. Qed.
+
+(* fixed by 24b8b61: the old witness of q_rs_trait_first_ident now meets the specification *)
+Example C16_rs_trait_first_ident_fixed_regression :
+  file_good w_rs_trait = true /\ report srp_actual c_rs_trait w_rs_trait = spec_report c_rs_trait w_rs_trait /\ spec_report c_rs_trait w_rs_trait <> [].
+Proof. vm_compute. split; [reflexivity | split; [reflexivity | discriminate]]. Qed.
+
+(* fixed by 24b8b61: the old witness of q_rs_generic_impl_lost now meets the specification *)
+Example C16_rs_generic_impl_lost_fixed_regression :
+  file_good w_rs_generic = true /\ report srp_actual c_rs_generic w_rs_generic = spec_report c_rs_generic w_rs_generic /\ spec_report c_rs_generic w_rs_generic <> [].
+Proof. vm_compute. split; [reflexivity | split; [reflexivity | discriminate]]. Qed.
 
